@@ -102,6 +102,9 @@ type c17State struct {
 	done    bool
 	pkts    [][188]byte
 	data    []byte
+	// witness: an independent accumulator holding one unit that this history never touches
+	wit      packet.Accumulator
+	witBytes []byte
 }
 
 func c17New(id int) *c17State {
@@ -111,6 +114,11 @@ func c17New(id int) *c17State {
 		s.calls++
 		return s.pred.eval(len(b))
 	})
+	s.wit = packet.NewAccumulator(func([]byte) (bool, error) { return false, nil })
+	w0, w1 := packet.Packet(c17Alphabet[1].raw), packet.Packet(c17Alphabet[5].raw)
+	s.wit.WritePacket(&w0)
+	s.wit.WritePacket(&w1)
+	s.witBytes = s.wit.Bytes()
 	return s
 }
 
@@ -246,6 +254,11 @@ func c17Apply(s *c17State, op int, res *engine.Result) bool {
 
 // c17Observe compares Bytes()/Packets() with the model and probes their independence.
 func c17Observe(s *c17State, res *engine.Result, ctx string) {
+	if s.wit != nil {
+		if wb := s.wit.Bytes(); !bytes.Equal(wb, s.witBytes) || len(s.wit.Packets()) != 2 {
+			res.Failf("witness|Accumulator|changed-by-calls-on-another-accumulator", "an independent accumulator changed (%d -> %d bytes, %d packets)", len(s.witBytes), len(wb), len(s.wit.Packets()))
+		}
+	}
 	got := s.acc.Bytes()
 	if !bytes.Equal(got, s.data) {
 		res.Failf(ctx+"|Bytes", "Bytes() has %d bytes, model %d (first difference at %d)", len(got), len(s.data), firstDiff(got, s.data))
